@@ -164,6 +164,15 @@ fn get_global_info(root: &Node<'_>) -> GlobalInfo {
         given.extend(number_names);
     }
 
+    // infosets are keyed by name from here on, so different infosets with the same name would be
+    // silently merged into one
+    for names in &infoset_names {
+        let unique: HashSet<_> = names.values().collect();
+        if unique.len() != names.len() {
+            panic!("several infosets of one player were given the same name : https://github.com/erikbrinkman/cfr#duplicate-infosets");
+        }
+    }
+
     // go through terminal payoffs to determine value of constant sum
     let mut min = f64::INFINITY;
     let mut max = -f64::INFINITY;
